@@ -179,3 +179,83 @@ func VerifC12_Lifecycle() {
 		vfAssert("in-step", hInStep12(s))
 	}
 }
+
+// VerifC12_ConcurrentEdit: a history-rewriting edit (other matchers) of an active
+// silence runs concurrently with an edit that only extends its end, issued a second
+// later; the goroutine of the first may be descheduled for a while at any
+// synchronisation point while the clock moves on (slow=2), e.g. between reading the
+// clock and taking the store's lock. Whatever the order, once both calls have returned
+// the old id is expired, never active again, and the replacement is active under a new
+// id. (Two calls completing at the very same clock reading are left out, as everywhere.)
+//
+//vf:quick unwind=16 decisions=500 paths=600000 goroutines=6 preempt=2 slow=2
+//vf:thorough unwind=16 decisions=700 paths=6000000 goroutines=6 preempt=3 slow=3
+//vf:expect reach=rewrite-first reach=extend-first
+func VerifC12_ConcurrentEdit() {
+	s, err := New(Options{Retention: time.Hour, Metrics: prometheus.NewRegistry()})
+	if err != nil {
+		panic(err)
+	}
+	ctx := context.Background()
+	now := vfNow()
+	orig := &pb.Silence{
+		MatcherSets: []*pb.MatcherSet{{Matchers: []*pb.Matcher{{Type: pb.Matcher_EQUAL, Name: "job", Pattern: "a"}}}},
+		StartsAt:    timestamppb.New(now),
+		EndsAt:      timestamppb.New(now.Add(time.Hour)),
+		Comment:     "original",
+	}
+	vfAssert("create-ok", s.Set(ctx, orig) == nil)
+	oldID := orig.Id
+	vfAdvance(time.Minute)
+
+	var t1, t2 time.Time
+	var err1, err2 error
+	newID := ""
+	done := make(chan struct{}, 2)
+	vfGo("rewrite", func() {
+		e := &pb.Silence{
+			Id:          oldID,
+			MatcherSets: []*pb.MatcherSet{{Matchers: []*pb.Matcher{{Type: pb.Matcher_EQUAL, Name: "job", Pattern: "b"}}}},
+			StartsAt:    orig.StartsAt,
+			EndsAt:      orig.EndsAt,
+			Comment:     "other matchers",
+		}
+		err1 = s.Set(ctx, e)
+		t1 = vfNow()
+		newID = e.Id
+		done <- struct{}{}
+	})
+	vfGo("extend", func() {
+		vfAdvance(time.Second)
+		e := &pb.Silence{
+			Id:          oldID,
+			MatcherSets: orig.MatcherSets,
+			StartsAt:    orig.StartsAt,
+			EndsAt:      timestamppb.New(now.Add(3 * time.Hour)),
+			Comment:     "extended",
+		}
+		err2 = s.Set(ctx, e)
+		t2 = vfNow()
+		vfAdvance(time.Second)
+		done <- struct{}{}
+	})
+	<-done
+	<-done
+	vfAssume(!t1.Equal(t2))
+	_ = err2
+	vfAdvance(time.Second) // (the instant of the expiry itself is a boundary instant)
+	vfAssert("rewriting-edit-accepted", err1 == nil && newID != "" && newID != oldID)
+	end := vfNow()
+	old, qerr := s.QueryOne(ctx, QIDs(oldID))
+	vfAssert("old-id-still-queryable", qerr == nil)
+	if qerr == nil {
+		vfAssert("old-silence-is-expired-once-rewritten", getState(old, end) == SilenceStateExpired)
+	}
+	repl, rerr := s.QueryOne(ctx, QIDs(newID))
+	vfAssert("replacement-active-under-new-id", rerr == nil && getState(repl, end) == SilenceStateActive)
+	if t1.Before(t2) {
+		vfReach("rewrite-first")
+	} else {
+		vfReach("extend-first")
+	}
+}
